@@ -1,7 +1,1225 @@
-//! C43: not implemented yet.
+//! C43: bulk-load APIs equal row-at-a-time INSERT.
+//!
+//! Twin databases: twin A loads a batch through `insert_batch`, `insert_batch_into_schema`,
+//! `insert_cached` (prepared statement executed repeatedly, or the cached plan called directly) or
+//! `bulk_insert`; twin B executes one `INSERT INTO t VALUES (...)` per row. Everything else (table,
+//! seed rows, DML before/after, transaction, WAL, reopen) is the same SQL on both. Judged:
+//!   * twin equalities: `call_result` / `row_outcomes`, `bag`, `autoinc_next`, `post_dml_result`,
+//!     `dup_rejected:<col>`;
+//!   * self-consistency of A where B is self-consistent for the same probe: `count` (COUNT(*) vs the
+//!     scanned bag), `lookup:<col>` (index point lookups for present/absent keys vs a filter of the
+//!     scanned bag), `order_by:<col>`, `range:<col>`;
+//!   * violating batches: for `insert_cached` the per-row outcome must equal the INSERT's; for
+//!     `insert_batch*` (nothing documented) the table must still satisfy its declared constraints
+//!     afterwards; for `bulk_insert` (fast_load.rs: "the caller MUST ensure") only counted.
+//! A failing case is shrunk structurally (batch size, DML before/after, transaction, WAL, reopen,
+//! table traits, NULLs, key order) and the signature is api / observation / what remains.
+use crate::report::{catch, Ctx};
+use crate::rng::{fnv, Rng};
+use crate::sqlm::db::{panic_tag, Db, Outcome, Scratch};
+use crate::sqlm::val::{row_key, rows_json, Row, V};
 use crate::Args;
+use serde_json::{json, Value as J};
+use std::cmp::Ordering;
+use std::collections::{BTreeMap, BTreeSet, HashMap};
+use turdb::OwnedValue;
 
-pub fn run(_a: &Args) -> i32 {
-    println!("INCONCLUSIVE property=C43 reason=check not implemented yet");
-    2
+// column positions: id, u, s, d, n, txt, f
+const ID: usize = 0;
+const U: usize = 1;
+const S: usize = 2;
+const D: usize = 3;
+const N: usize = 4;
+const TXT: usize = 5;
+const F: usize = 6;
+const COLS: [&str; 7] = ["id", "u", "s", "d", "n", "txt", "f"];
+
+#[derive(Clone, Copy, Debug, PartialEq, Eq, Hash, PartialOrd, Ord)]
+enum Api {
+    Batch,
+    BatchSchema,
+    Cached,
+    CachedDirect,
+    BulkInsert,
+}
+
+const APIS: [Api; 5] = [Api::Batch, Api::BatchSchema, Api::Cached, Api::CachedDirect, Api::BulkInsert];
+
+impl Api {
+    fn name(&self) -> &'static str {
+        match self {
+            Api::Batch => "insert_batch",
+            Api::BatchSchema => "insert_batch_into_schema",
+            Api::Cached => "insert_cached",
+            Api::CachedDirect => "insert_cached_direct",
+            Api::BulkInsert => "bulk_insert",
+        }
+    }
+    fn rowwise(&self) -> bool {
+        matches!(self, Api::Cached | Api::CachedDirect)
+    }
+}
+
+#[derive(Clone, Copy, Debug, PartialEq, Eq, Hash, Default)]
+struct Traits {
+    pk: bool,
+    unique: bool,
+    secidx: bool,
+    autoinc: bool,
+    defaults: bool,
+    notnull: bool,
+}
+
+impl Traits {
+    fn create_sql(&self) -> Vec<String> {
+        let mut v = vec![format!(
+            "CREATE TABLE t (id INT{}{}, u INT{}, s INT, d INT{}, n INT{}, txt TEXT, f DOUBLE)",
+            if self.pk { " PRIMARY KEY" } else { "" },
+            if self.autoinc { " AUTO_INCREMENT" } else { "" },
+            if self.unique { " UNIQUE" } else { "" },
+            if self.defaults { " DEFAULT 7" } else { "" },
+            if self.notnull { " NOT NULL" } else { "" }
+        )];
+        if self.secidx {
+            v.push("CREATE INDEX t_s ON t (s)".into());
+        }
+        v
+    }
+    fn names(&self) -> Vec<&'static str> {
+        let mut v = vec![];
+        if self.pk {
+            v.push("pk");
+        }
+        if self.unique {
+            v.push("unique");
+        }
+        if self.secidx {
+            v.push("secidx");
+        }
+        if self.autoinc {
+            v.push("autoinc");
+        }
+        if self.defaults {
+            v.push("default");
+        }
+        if self.notnull {
+            v.push("notnull");
+        }
+        v
+    }
+}
+
+#[derive(Clone, Copy, Debug, PartialEq, Eq, Hash)]
+enum Txn {
+    None,
+    Commit,
+    Rollback,
+}
+
+#[derive(Clone, Copy, Debug, PartialEq, Eq, Hash)]
+enum ViolKind {
+    DupPkInBatch,
+    DupPkExisting,
+    DupUniqueInBatch,
+    DupUniqueExisting,
+    NullNotNull,
+}
+
+impl ViolKind {
+    fn name(&self) -> &'static str {
+        match self {
+            ViolKind::DupPkInBatch => "dup_pk_in_batch",
+            ViolKind::DupPkExisting => "dup_pk_existing",
+            ViolKind::DupUniqueInBatch => "dup_unique_in_batch",
+            ViolKind::DupUniqueExisting => "dup_unique_existing",
+            ViolKind::NullNotNull => "null_into_not_null",
+        }
+    }
+}
+
+#[derive(Clone, Debug)]
+struct Case {
+    tr: Traits,
+    api: Api,
+    wal: bool,
+    txn: Txn,
+    seeds: Vec<Row>,
+    /// marker values (column d) of seed rows deleted / updated before the load
+    pre_delete: Vec<i64>,
+    pre_update: Vec<i64>,
+    batch: Vec<Row>,
+    viol: Option<ViolKind>,
+    post_insert: Vec<Row>,
+    post_update: Vec<i64>,
+    post_delete: Vec<i64>,
+    reopen: bool,
+    /// prepared statement with a column list that omits the AUTO_INCREMENT id
+    collist: bool,
+    wide: bool,
+    nulls: bool,
+    shuffled: bool,
+    null_ids: bool,
+}
+
+impl Case {
+    fn flags(&self) -> Vec<String> {
+        let mut v: Vec<String> = self.tr.names().iter().map(|s| s.to_string()).collect();
+        if self.wide {
+            v.push("wide_rows".into());
+        }
+        if self.nulls {
+            v.push("nulls".into());
+        }
+        if self.null_ids {
+            v.push("null_id".into());
+        }
+        if self.shuffled {
+            v.push("unordered_keys".into());
+        }
+        if self.collist {
+            v.push("collist".into());
+        }
+        if !self.seeds.is_empty() {
+            v.push("rows_before".into());
+        }
+        if !self.pre_delete.is_empty() {
+            v.push("delete_before".into());
+        }
+        if !self.pre_update.is_empty() {
+            v.push("update_before".into());
+        }
+        if !self.post_insert.is_empty() {
+            v.push("insert_after".into());
+        }
+        if !self.post_update.is_empty() {
+            v.push("update_after".into());
+        }
+        if !self.post_delete.is_empty() {
+            v.push("delete_after".into());
+        }
+        match self.txn {
+            Txn::None => {}
+            Txn::Commit => v.push("txn_commit".into()),
+            Txn::Rollback => v.push("txn_rollback".into()),
+        }
+        if self.wal {
+            v.push("wal".into());
+        }
+        if self.reopen {
+            v.push("reopen".into());
+        }
+        match self.batch.len() {
+            0 => v.push("batch0".into()),
+            1 => {}
+            2..=63 => v.push("batch>1".into()),
+            _ => v.push("batch>=64".into()),
+        }
+        if let Some(k) = self.viol {
+            v.push(format!("viol:{}", k.name()));
+        }
+        v
+    }
+    fn size_class(&self) -> &'static str {
+        match self.batch.len() {
+            0 => "0",
+            1 => "1",
+            2..=39 => "small",
+            40..=450 => "leaf_band",
+            _ => "5000",
+        }
+    }
+}
+
+fn insert_sql(r: &Row) -> String {
+    format!("INSERT INTO t VALUES ({})", r.iter().map(|v| v.sql()).collect::<Vec<_>>().join(", "))
+}
+
+fn to_owned(r: &Row) -> Vec<OwnedValue> {
+    r.iter().map(|v| v.to_owned_value()).collect()
+}
+
+fn err_class(e: &str) -> String {
+    if e.starts_with("PANIC: ") {
+        return format!("panic@{}", panic_tag(e));
+    }
+    e.split(|c: char| !c.is_ascii_alphabetic()).filter(|w| !w.is_empty()).take(6).collect::<Vec<_>>().join("_").to_lowercase()
+}
+
+fn gen_row(rng: &mut Rng, id: V, u: V, marker: i64, c: (bool, bool)) -> Row {
+    let (nulls, wide) = c;
+    let s = if nulls && rng.chance(1, 6) { V::Null } else { V::Int(rng.range(0, 9)) };
+    let txt = if nulls && rng.chance(1, 6) {
+        V::Null
+    } else if wide {
+        V::Text(format!("w{}-{}", marker, "x".repeat(rng.usize(60, 260))))
+    } else {
+        V::Text(format!("r{}", marker))
+    };
+    let f = if nulls && rng.chance(1, 6) { V::Null } else { V::Float(rng.range(-40, 40) as f64 * 0.25) };
+    vec![id, u, s, V::Int(marker), V::Int(rng.range(-50, 50)), txt, f]
+}
+
+fn gen_case(rng: &mut Rng, api: Api, size: usize, allow_viol: bool) -> Case {
+    let mut tr = Traits { pk: rng.chance(1, 2), unique: rng.chance(2, 5), secidx: rng.chance(2, 5), autoinc: rng.chance(1, 4), defaults: rng.chance(1, 4), notnull: rng.chance(1, 4) };
+    let viol = if allow_viol && size >= 2 && size <= 8 && rng.chance(1, 5) { Some(*rng.pick(&[ViolKind::DupPkInBatch, ViolKind::DupPkExisting, ViolKind::DupUniqueInBatch, ViolKind::DupUniqueExisting, ViolKind::NullNotNull])) } else { None };
+    match viol {
+        Some(ViolKind::DupPkInBatch) | Some(ViolKind::DupPkExisting) => tr.pk = true,
+        Some(ViolKind::DupUniqueInBatch) | Some(ViolKind::DupUniqueExisting) => tr.unique = true,
+        Some(ViolKind::NullNotNull) => tr.notnull = true,
+        None => {}
+    }
+    let nulls = rng.chance(1, 2);
+    let wide = rng.chance(1, 3);
+    let null_ids = tr.autoinc && viol.is_none() && rng.chance(1, 2);
+    let collist = api == Api::Cached && tr.autoinc && null_ids && rng.chance(1, 3);
+    let needs_seed = matches!(viol, Some(ViolKind::DupPkExisting) | Some(ViolKind::DupUniqueExisting));
+    let nseed = if needs_seed || rng.chance(7, 10) { rng.usize(1, 25) } else { 0 };
+    let mut seeds = vec![];
+    for i in 0..nseed {
+        let id = if null_ids { V::Null } else { V::Int(i as i64 + 1) };
+        let u = if nulls && rng.chance(1, 5) { V::Null } else { V::Int(i as i64 + 1) };
+        seeds.push(gen_row(rng, id, u, i as i64 + 1, (nulls, wide)));
+    }
+    let mut pre_delete = vec![];
+    let mut pre_update = vec![];
+    if nseed > 0 && rng.chance(2, 5) {
+        for _ in 0..rng.usize(1, nseed.min(3)) {
+            let m = rng.range(1, nseed as i64);
+            if !pre_delete.contains(&m) && !(needs_seed && m == 1) {
+                pre_delete.push(m);
+            }
+        }
+    }
+    if nseed > 0 && rng.chance(1, 3) {
+        for _ in 0..rng.usize(1, 2) {
+            let m = rng.range(1, nseed as i64);
+            if !pre_delete.contains(&m) && !pre_update.contains(&m) {
+                pre_update.push(m);
+            }
+        }
+    }
+    // batch: ids from 100 upward (gaps), u from 1000 upward; markers 1000+i
+    let shuffled = rng.chance(2, 5);
+    let mut ids: Vec<i64> = vec![];
+    let mut next = 100i64;
+    for _ in 0..size {
+        ids.push(next);
+        next += 1 + if rng.chance(1, 4) { rng.below(3) as i64 } else { 0 };
+    }
+    if shuffled {
+        rng.shuffle(&mut ids);
+    }
+    let mut batch = vec![];
+    for i in 0..size {
+        let id = if null_ids { V::Null } else { V::Int(ids[i]) };
+        let u = if nulls && rng.chance(1, 5) { V::Null } else { V::Int(1000 + i as i64) };
+        batch.push(gen_row(rng, id, u, 1000 + i as i64, (nulls, wide)));
+    }
+    if let Some(k) = viol {
+        let j = rng.usize(1, size - 1);
+        let i = rng.usize(0, j - 1);
+        match k {
+            ViolKind::DupPkInBatch => batch[j][ID] = batch[i][ID].clone(),
+            ViolKind::DupPkExisting => batch[j][ID] = V::Int(1),
+            ViolKind::DupUniqueInBatch => {
+                batch[i][U] = V::Int(1000 + i as i64);
+                batch[j][U] = batch[i][U].clone();
+            }
+            ViolKind::DupUniqueExisting => {
+                // seed row 1 keeps a non-NULL u
+                seeds[0][U] = V::Int(1);
+                batch[j][U] = V::Int(1);
+            }
+            ViolKind::NullNotNull => batch[j][N] = V::Null,
+        }
+    }
+    let mut post_insert = vec![];
+    if rng.chance(2, 5) {
+        for i in 0..rng.usize(1, 4) {
+            let id = if tr.autoinc && (null_ids || rng.chance(1, 2)) { V::Null } else { V::Int(8000 + i as i64) };
+            post_insert.push(gen_row(rng, id, V::Int(8000 + i as i64), 8000 + i as i64, (nulls, wide)));
+        }
+    }
+    let mut post_update = vec![];
+    let mut post_delete = vec![];
+    if size > 0 && rng.chance(1, 3) {
+        for _ in 0..rng.usize(1, 2) {
+            post_update.push(1000 + rng.below(size as u64) as i64);
+        }
+    }
+    if size > 0 && rng.chance(1, 3) {
+        for _ in 0..rng.usize(1, 2) {
+            let m = 1000 + rng.below(size as u64) as i64;
+            if !post_delete.contains(&m) {
+                post_delete.push(m);
+            }
+        }
+    }
+    let mut txn = match rng.below(10) {
+        0..=5 => Txn::None,
+        6 | 7 => Txn::Commit,
+        _ => Txn::Rollback,
+    };
+    if api == Api::BulkInsert && txn == Txn::Rollback {
+        // fast_load.rs: "FastLoader operates in auto-commit mode ... For transactional bulk loads, use standard INSERT"
+        txn = Txn::Commit;
+    }
+    Case { tr, api, wal: rng.chance(3, 10), txn, seeds, pre_delete, pre_update, batch, viol, post_insert, post_update, post_delete, reopen: rng.chance(1, 3), collist, wide, nulls, shuffled, null_ids }
+}
+
+/// what one twin looks like at one point
+struct Obs {
+    bag: Result<Vec<Row>, String>,
+    count: Result<i64, String>,
+    /// (column, key, rows)
+    lookups: Vec<(usize, V, Result<Vec<Row>, String>)>,
+    /// (column, projected column in order)
+    orders: Vec<(usize, Result<Vec<V>, String>)>,
+    /// (column, lo, hi, rows)
+    ranges: Vec<(usize, i64, i64, Result<Vec<Row>, String>)>,
+}
+
+fn sorted_keys(rows: &[Row]) -> Vec<String> {
+    let mut k: Vec<String> = rows.iter().map(|r| row_key(r, true)).collect();
+    k.sort();
+    k
+}
+
+fn observe(db: &mut Db, probes: &[(usize, V)], order_cols: &[usize], ranges: &[(usize, i64, i64)]) -> Obs {
+    let bag = db.query("SELECT * FROM t");
+    let count = match db.query("SELECT COUNT(*) FROM t") {
+        Ok(r) => match r.get(0).and_then(|x| x.get(0)) {
+            Some(V::Int(i)) => Ok(*i),
+            other => Err(format!("COUNT(*) returned {:?}", other)),
+        },
+        Err(e) => Err(e),
+    };
+    let lookups = probes.iter().map(|(c, k)| (*c, k.clone(), db.query(&format!("SELECT * FROM t WHERE {} = {}", COLS[*c], k.sql())))).collect();
+    let orders = order_cols.iter().map(|c| (*c, db.query(&format!("SELECT {} FROM t ORDER BY {}", COLS[*c], COLS[*c])).map(|rows| rows.into_iter().map(|mut r| r.swap_remove(0)).collect()))).collect();
+    let ranges = ranges.iter().map(|(c, lo, hi)| (*c, *lo, *hi, db.query(&format!("SELECT * FROM t WHERE {} >= {} AND {} <= {}", COLS[*c], lo, COLS[*c], hi)))).collect();
+    Obs { bag, count, lookups, orders, ranges }
+}
+
+/// names of the self-consistency observations that fail on this twin (None = holds), relative to its own scan
+fn self_check(o: &Obs) -> BTreeMap<String, J> {
+    let mut bad = BTreeMap::new();
+    let bag = match &o.bag {
+        Ok(b) => b,
+        Err(_) => return bad,
+    };
+    match &o.count {
+        Ok(c) if *c as usize == bag.len() => {}
+        Ok(c) => {
+            bad.insert("count".into(), json!({"count_star": c, "scanned_rows": bag.len()}));
+        }
+        Err(e) => {
+            bad.insert("count".into(), json!({"error": e}));
+        }
+    }
+    for (c, k, res) in &o.lookups {
+        let want: Vec<Row> = bag.iter().filter(|r| r.get(*c).map_or(false, |v| v.sql_cmp(k) == Some(Ordering::Equal))).cloned().collect();
+        let name = format!("lookup_{}:{}", if want.is_empty() { "absent" } else { "present" }, COLS[*c]);
+        match res {
+            Ok(rows) if sorted_keys(rows) == sorted_keys(&want) => {}
+            Ok(rows) => {
+                bad.entry(name).or_insert_with(|| json!({"key": k.to_json(), "lookup_rows": rows_json(rows, 4), "lookup_len": rows.len(), "rows_in_scan_with_key": rows_json(&want, 4), "scan_len": want.len()}));
+            }
+            Err(e) => {
+                bad.entry(name).or_insert_with(|| json!({"key": k.to_json(), "error": e}));
+            }
+        }
+    }
+    for (c, res) in &o.orders {
+        let mut want: Vec<V> = bag.iter().filter_map(|r| r.get(*c).cloned()).collect();
+        want.sort_by(|a, b| a.order_cmp(b));
+        let name = format!("order_by:{}", COLS[*c]);
+        match res {
+            Ok(got) if got.len() == want.len() && got.iter().zip(&want).all(|(a, b)| a.key(true) == b.key(true)) => {}
+            Ok(got) => {
+                bad.insert(name, json!({"got_len": got.len(), "want_len": want.len(), "got_head": got.iter().take(8).map(|v| v.to_json()).collect::<Vec<_>>(), "want_head": want.iter().take(8).map(|v| v.to_json()).collect::<Vec<_>>()}));
+            }
+            Err(e) => {
+                bad.insert(name, json!({"error": e}));
+            }
+        }
+    }
+    for (c, lo, hi, res) in &o.ranges {
+        let want: Vec<Row> = bag.iter().filter(|r| matches!(r.get(*c), Some(V::Int(x)) if x >= lo && x <= hi)).cloned().collect();
+        let name = format!("range:{}", COLS[*c]);
+        match res {
+            Ok(rows) if sorted_keys(rows) == sorted_keys(&want) => {}
+            Ok(rows) => {
+                bad.insert(name, json!({"lo": lo, "hi": hi, "range_len": rows.len(), "scan_len": want.len()}));
+            }
+            Err(e) => {
+                bad.insert(name, json!({"error": e}));
+            }
+        }
+    }
+    bad
+}
+
+#[derive(Default)]
+struct CaseOut {
+    /// (observation name, detail) that differ, in order of discovery
+    diffs: Vec<(String, J)>,
+    dropped: Option<String>,
+    /// the API call loaded at least one row
+    exercised: bool,
+    index_probes: u64,
+    index_probes_via_index: u64,
+    notes: Vec<String>,
+    log_a: Vec<String>,
+}
+
+fn setup(scratch: &Scratch, name: &str, c: &Case) -> Result<Db, String> {
+    let mut db = Db::create(&scratch.dir(name))?;
+    if c.wal {
+        db.exec("PRAGMA wal = ON")?;
+    }
+    for s in c.tr.create_sql() {
+        db.exec(&s)?;
+    }
+    Ok(db)
+}
+
+fn outcome_str(r: &Result<Outcome, String>) -> String {
+    match r {
+        Ok(Outcome::Dml(n, ret)) => format!("ok:{}{}", n, ret.as_ref().map(|rows| format!(":{}", rows.iter().map(|r| row_key(r, true)).collect::<Vec<_>>().join(";"))).unwrap_or_default()),
+        Ok(_) => "ok".into(),
+        Err(e) if e.starts_with("PANIC: ") => format!("panic@{}", panic_tag(e)),
+        Err(_) => "err".into(),
+    }
+}
+
+/// load the batch through the API on twin A; returns (per-row outcomes for row-wise APIs | call result, rows loaded?)
+fn load_a(db: &mut Db, c: &Case) -> (String, bool, Option<String>) {
+    let rows: Vec<Vec<OwnedValue>> = c.batch.iter().map(to_owned).collect();
+    db.log.push(format!("-- {}({} rows)", c.api.name(), rows.len()));
+    let raw = &db.db;
+    let res: Result<(String, bool, Option<String>), String> = catch(|| match c.api {
+        Api::Batch | Api::BatchSchema | Api::BulkInsert => {
+            let r = match c.api {
+                Api::Batch => raw.insert_batch("t", &rows).map(|n| n as u64),
+                Api::BatchSchema => raw.insert_batch_into_schema("root", "t", &rows).map(|n| n as u64),
+                _ => raw.bulk_insert("t", rows.clone()),
+            };
+            match r {
+                Ok(n) => (format!("ok:{}", n), n > 0, None),
+                Err(e) => ("err".to_string(), false, Some(format!("{:#}", e))),
+            }
+        }
+        Api::Cached | Api::CachedDirect => {
+            let sql = if c.collist { "INSERT INTO t (u, s, d, n, txt, f) VALUES (?, ?, ?, ?, ?, ?)" } else { "INSERT INTO t VALUES (?, ?, ?, ?, ?, ?, ?)" };
+            let stmt = match raw.prepare(sql) {
+                Ok(s) => s,
+                Err(e) => return ("prepare_err".to_string(), false, Some(format!("{:#}", e))),
+            };
+            let mut out = String::new();
+            let mut first_err = None;
+            let mut any = false;
+            let mut plan = None;
+            for (i, r) in rows.iter().enumerate() {
+                let params: &[OwnedValue] = if c.collist { &r[1..] } else { &r[..] };
+                let res = if c.api == Api::CachedDirect && plan.is_some() {
+                    raw.insert_cached(plan.as_ref().unwrap(), params).map(|_| ())
+                } else {
+                    let mut b = stmt.bind(params[0].clone());
+                    for p in &params[1..] {
+                        b = b.bind(p.clone());
+                    }
+                    b.execute(raw).map(|_| ())
+                };
+                if c.api == Api::CachedDirect && plan.is_none() {
+                    plan = stmt.cached_insert_plan();
+                }
+                match res {
+                    Ok(()) => {
+                        out.push('o');
+                        any = true;
+                    }
+                    Err(e) => {
+                        out.push('x');
+                        if first_err.is_none() {
+                            first_err = Some(format!("row {}: {:#}", i, e));
+                        }
+                    }
+                }
+            }
+            (out, any, first_err)
+        }
+    });
+    match res {
+        Ok(x) => x,
+        Err(p) => (format!("panic@{}", panic_tag(&format!("PANIC: {}", p))), false, Some(p)),
+    }
+}
+
+fn load_b(db: &mut Db, c: &Case) -> (String, String) {
+    let mut per_row = String::new();
+    let mut n = 0;
+    for r in &c.batch {
+        match db.exec(&insert_sql(r)) {
+            Ok(_) => {
+                per_row.push('o');
+                n += 1;
+            }
+            Err(_) => per_row.push('x'),
+        }
+    }
+    let call = if per_row.contains('x') { "err".to_string() } else { format!("ok:{}", n) };
+    (call, per_row)
+}
+
+/// probe keys derived from the reference twin's content (present keys) plus absent keys
+fn make_probes(c: &Case, bag_b: &[Row], bag_a: &[Row], rng: &mut Rng) -> (Vec<(usize, V)>, Vec<usize>, Vec<(usize, i64, i64)>) {
+    let mut probes: Vec<(usize, V)> = vec![];
+    let mut orders = vec![];
+    let mut ranges = vec![];
+    let cols: Vec<usize> = [(c.tr.pk, ID), (c.tr.unique, U), (c.tr.secidx, S)].iter().filter(|(b, _)| *b).map(|(_, c)| *c).collect();
+    for col in cols {
+        let mut seen: BTreeSet<String> = BTreeSet::new();
+        for bag in [bag_b, bag_a] {
+            let vals: Vec<&V> = bag.iter().filter_map(|r| r.get(col)).filter(|v| matches!(v, V::Int(_))).collect();
+            if vals.is_empty() {
+                continue;
+            }
+            let mut picks = vec![0, vals.len() / 2, vals.len() - 1];
+            for _ in 0..2 {
+                picks.push(rng.below(vals.len() as u64) as usize);
+            }
+            for p in picks {
+                if seen.insert(vals[p].key(true)) {
+                    probes.push((col, vals[p].clone()));
+                }
+            }
+        }
+        probes.push((col, V::Int(777_777)));
+        probes.push((col, V::Int(-5)));
+        orders.push(col);
+        let lo = if col == S { 2 } else if col == ID { 90 } else { 995 };
+        ranges.push((col, lo, lo + if col == S { 4 } else { 30 }));
+    }
+    (probes, orders, ranges)
+}
+
+/// compare the two twins at one point; pushes differing observation names (suffix = phase)
+fn compare_point(out: &mut CaseOut, a: &Obs, b: &Obs, phase: &str, bag_diverged: &mut bool, reported: &mut BTreeSet<String>) {
+    match (&a.bag, &b.bag) {
+        (_, Err(e)) => {
+            if out.dropped.is_none() {
+                out.dropped = Some(format!("reference_scan_failed{}:{}", phase, err_class(e)));
+            }
+            return;
+        }
+        (Err(e), Ok(_)) => {
+            if !*bag_diverged {
+                out.diffs.push((format!("bag{}", phase), json!({"bulk_twin_scan_error": e})));
+                *bag_diverged = true;
+            }
+            return;
+        }
+        (Ok(ba), Ok(bb)) => {
+            if !*bag_diverged {
+                if let Some(d) = crate::sqlm::cmp::bag_diff(ba, bb) {
+                    out.diffs.push((format!("bag{}", phase), json!({"bulk_twin_vs_reference": d})));
+                    *bag_diverged = true;
+                }
+            }
+        }
+    }
+    let sa = self_check(a);
+    let sb = self_check(b);
+    for (name, d) in sa {
+        if sb.contains_key(&name) {
+            out.notes.push(format!("reference_also_inconsistent:{}", name));
+            continue;
+        }
+        if reported.insert(name.clone()) {
+            out.diffs.push((format!("{}{}", name, phase), d));
+        }
+    }
+}
+
+fn run_case(scratch: &Scratch, c: &Case, tag: &str) -> CaseOut {
+    let mut out = CaseOut::default();
+    let mut rng = Rng::new(fnv(format!("{:?}{:?}{}", c.tr, c.api, c.batch.len()).as_bytes()));
+    let (mut a, mut b) = match (setup(scratch, &format!("{}a", tag), c), setup(scratch, &format!("{}b", tag), c)) {
+        (Ok(a), Ok(b)) => (a, b),
+        (Err(e), _) | (_, Err(e)) => {
+            out.dropped = Some(format!("setup:{}", err_class(&e)));
+            return out;
+        }
+    };
+    let rowwise = c.api.rowwise();
+    let batch_api_viol = c.viol.is_some() && !rowwise;
+    // ---- identical SQL before the load
+    let mut pre: Vec<String> = c.seeds.iter().map(insert_sql).collect();
+    for m in &c.pre_delete {
+        pre.push(format!("DELETE FROM t WHERE d = {}", m));
+    }
+    for m in &c.pre_update {
+        pre.push(format!("UPDATE t SET n = n + 1, s = 5 WHERE d = {}", m));
+    }
+    for s in &pre {
+        let ra = outcome_str(&a.exec(s));
+        let rb = outcome_str(&b.exec(s));
+        if ra != rb || ra.starts_with("err") || ra.starts_with("panic") {
+            out.dropped = Some(format!("sql_before_load_failed_or_diverged:{}", s.split(' ').next().unwrap_or("")));
+            return out;
+        }
+    }
+    if c.txn != Txn::None {
+        let _ = a.exec("BEGIN");
+        let _ = b.exec("BEGIN");
+    }
+    // ---- the load
+    let (res_a, any, err_a) = load_a(&mut a, c);
+    out.exercised = any;
+    let (call_b, rows_b) = if batch_api_viol { (String::new(), String::new()) } else { load_b(&mut b, c) };
+    match c.txn {
+        Txn::None => {}
+        Txn::Commit => {
+            let ra = outcome_str(&a.exec("COMMIT"));
+            let rb = outcome_str(&b.exec("COMMIT"));
+            if ra != rb {
+                out.diffs.push(("commit_result".into(), json!({"bulk_twin": ra, "reference": rb})));
+            }
+        }
+        Txn::Rollback => {
+            let ra = outcome_str(&a.exec("ROLLBACK"));
+            let rb = outcome_str(&b.exec("ROLLBACK"));
+            if ra != rb {
+                out.diffs.push(("rollback_result".into(), json!({"bulk_twin": ra, "reference": rb})));
+            }
+        }
+    }
+    if res_a.starts_with("panic@") {
+        out.diffs.push((format!("no_panic:{}", res_a), json!({"panic": err_a})));
+        out.log_a = a.log.clone();
+        return out;
+    }
+    // ---- violating batch through a batch API: only the declared constraints are demanded
+    if batch_api_viol {
+        let kind = c.viol.unwrap();
+        let rows = match a.query("SELECT * FROM t") {
+            Ok(r) => r,
+            Err(e) => {
+                out.diffs.push(("bag".into(), json!({"bulk_twin_scan_error": e, "after": "violating batch"})));
+                out.log_a = a.log.clone();
+                return out;
+            }
+        };
+        let mut broken: Option<J> = None;
+        let dup = |col: usize| -> Option<V> {
+            let mut seen = BTreeSet::new();
+            for r in &rows {
+                if let Some(v) = r.get(col) {
+                    if !v.is_null() && !seen.insert(v.key(true)) {
+                        return Some(v.clone());
+                    }
+                }
+            }
+            None
+        };
+        if c.tr.pk {
+            if let Some(v) = dup(ID) {
+                broken = Some(json!({"constraint": "PRIMARY KEY(id)", "duplicate_value": v.to_json()}));
+            }
+        }
+        if broken.is_none() && c.tr.unique {
+            if let Some(v) = dup(U) {
+                broken = Some(json!({"constraint": "UNIQUE(u)", "duplicate_value": v.to_json()}));
+            }
+        }
+        if broken.is_none() && c.tr.notnull && rows.iter().any(|r| r.get(N).map_or(false, |v| v.is_null())) {
+            broken = Some(json!({"constraint": "NOT NULL(n)"}));
+        }
+        if let Some(bj) = broken {
+            if c.api == Api::BulkInsert {
+                out.notes.push(format!("bulk_insert_admits:{}(documented caller precondition)", kind.name()));
+            } else {
+                out.diffs.push((format!("violating_batch_admitted:{}", kind.name()), json!({"call_result": res_a, "call_error": err_a, "broken": bj, "rows_after": rows.len()})));
+            }
+        } else {
+            out.notes.push(format!("violating_batch_handled:{}:{}:{}", c.api.name(), kind.name(), if res_a == "err" { "rejected" } else { "skipped" }));
+        }
+        out.log_a = a.log.clone();
+        return out;
+    }
+    // ---- clean batch (or row-wise API): the reference must have behaved as planned
+    if c.viol.is_none() && rows_b.contains('x') {
+        out.dropped = Some("reference_insert_failed_on_clean_batch".into());
+        return out;
+    }
+    if c.viol.is_some() && !rows_b.contains('x') {
+        out.dropped = Some("reference_accepted_violating_row".into());
+        return out;
+    }
+    if rowwise {
+        if res_a != rows_b {
+            out.diffs.push(("row_outcomes".into(), json!({"bulk_twin": res_a.chars().take(64).collect::<String>(), "reference": rows_b.chars().take(64).collect::<String>(), "first_error": err_a, "meaning": "o = accepted, x = rejected, per row in order"})));
+        }
+    } else if res_a != call_b {
+        out.diffs.push(("call_result".into(), json!({"bulk_twin": res_a, "reference": call_b, "error": err_a})));
+    }
+    // ---- observations after the load
+    let mut bag_diverged = false;
+    let mut reported: BTreeSet<String> = BTreeSet::new();
+    let scan = |db: &mut Db| db.query("SELECT * FROM t").unwrap_or_default();
+    let point = |a: &mut Db, b: &mut Db, out: &mut CaseOut, phase: &str, rng: &mut Rng, bag_diverged: &mut bool, reported: &mut BTreeSet<String>, explain: bool| {
+        let bag_b = scan(b);
+        let bag_a = scan(a);
+        let (probes, orders, ranges) = make_probes(c, &bag_b, &bag_a, rng);
+        if explain {
+            let mut seen = BTreeSet::new();
+            for (col, k) in &probes {
+                if seen.insert(*col) {
+                    out.index_probes += 1;
+                    if a.explain(&format!("SELECT * FROM t WHERE {} = {}", COLS[*col], k.sql())).map_or(false, |p| p.contains("IndexScan")) {
+                        out.index_probes_via_index += 1;
+                    }
+                }
+            }
+        }
+        let oa = observe(a, &probes, &orders, &ranges);
+        let ob = observe(b, &probes, &orders, &ranges);
+        compare_point(out, &oa, &ob, phase, bag_diverged, reported);
+    };
+    point(&mut a, &mut b, &mut out, "", &mut rng, &mut bag_diverged, &mut reported, true);
+    if out.dropped.is_some() {
+        return out;
+    }
+    // reference sanity: every row of a clean batch with explicit ids is in the reference table
+    if c.viol.is_none() && !c.null_ids && c.txn != Txn::Rollback {
+        let have: BTreeSet<String> = scan(&mut b).iter().map(|r| row_key(r, true)).collect();
+        if c.batch.iter().any(|r| !have.contains(&row_key(r, true))) {
+            out.dropped = Some("reference_twin_does_not_hold_the_inserted_rows".into());
+            return out;
+        }
+    }
+    // ---- AUTO_INCREMENT continuation
+    if c.tr.autoinc {
+        let s = "INSERT INTO t (u, s, d, n, txt, f) VALUES (7001, 1, 7001, 1, 'next', 0.5) RETURNING id";
+        let ra = outcome_str(&a.exec(s));
+        let rb = outcome_str(&b.exec(s));
+        if ra != rb {
+            out.diffs.push(("autoinc_next".into(), json!({"statement": s, "bulk_twin": ra, "reference": rb})));
+        }
+    }
+    // ---- identical DML after the load
+    let mut post: Vec<String> = c.post_insert.iter().map(insert_sql).collect();
+    for m in &c.post_update {
+        post.push(format!("UPDATE t SET n = n + 1, s = 6 WHERE d = {}", m));
+    }
+    for m in &c.post_delete {
+        post.push(format!("DELETE FROM t WHERE d = {}", m));
+    }
+    if !post.is_empty() {
+        let mut ra = vec![];
+        let mut rb = vec![];
+        for s in &post {
+            ra.push(outcome_str(&a.exec(s)));
+            rb.push(outcome_str(&b.exec(s)));
+        }
+        if ra != rb && !bag_diverged {
+            let i = ra.iter().zip(&rb).position(|(x, y)| x != y).unwrap_or(0);
+            let kind = post[i].split(' ').next().unwrap_or("").to_lowercase();
+            out.diffs.push((format!("post_dml_result:{}", kind), json!({"statement": post[i], "bulk_twin": ra[i], "reference": rb[i]})));
+        }
+        point(&mut a, &mut b, &mut out, "@after_dml", &mut rng, &mut bag_diverged, &mut reported, false);
+    }
+    // ---- reopen
+    if c.reopen {
+        let (pa, pb) = (a.path.clone(), b.path.clone());
+        let la = std::mem::take(&mut a.log);
+        let ra = catch(move || drop(a));
+        let rb = catch(move || drop(b));
+        if rb.is_err() {
+            out.dropped = Some("reference_drop_panicked".into());
+            return out;
+        }
+        if let Err(p) = ra {
+            out.diffs.push((format!("no_panic:drop@{}", panic_tag(&format!("PANIC: {}", p))), json!({"panic": p})));
+            return out;
+        }
+        b = match Db::open(&pb) {
+            Ok(d) => d,
+            Err(e) => {
+                out.dropped = Some(format!("reference_reopen_failed:{}", err_class(&e)));
+                return out;
+            }
+        };
+        a = match Db::open(&pa) {
+            Ok(d) => d,
+            Err(e) => {
+                out.diffs.push(("reopen".into(), json!({"bulk_twin_open_error": e})));
+                out.log_a = la;
+                return out;
+            }
+        };
+        a.log = la;
+        a.log.push("-- drop handle; Database::open".into());
+        if c.wal {
+            let _ = a.exec("PRAGMA wal = ON");
+            let _ = b.exec("PRAGMA wal = ON");
+        }
+        point(&mut a, &mut b, &mut out, "@reopen", &mut rng, &mut bag_diverged, &mut reported, false);
+    }
+    // ---- a duplicate of a bulk-loaded key must be rejected on both twins
+    if !c.batch.is_empty() && c.txn != Txn::Rollback {
+        let bag_a = scan(&mut a);
+        for (col, on) in [(ID, c.tr.pk), (U, c.tr.unique)] {
+            if !on {
+                continue;
+            }
+            // a key of a batch row that is visible on both twins
+            let key = c
+                .batch
+                .iter()
+                .filter_map(|r| bag_a.iter().find(|x| x.get(D).map_or(false, |d| d.key(true) == r[D].key(true))))
+                .filter_map(|x| match x.get(col) {
+                    Some(V::Int(i)) => Some(*i),
+                    _ => None,
+                })
+                .next();
+            let key = match key {
+                Some(k) => k,
+                None => continue,
+            };
+            let mut r = vec![V::Int(6000 + col as i64), V::Int(6000 + col as i64), V::Int(1), V::Int(6000 + col as i64), V::Int(1), V::Text("dup".into()), V::Float(0.5)];
+            r[col] = V::Int(key);
+            let s = insert_sql(&r);
+            let ra = outcome_str(&a.exec(&s));
+            let rb = outcome_str(&b.exec(&s));
+            if rb.starts_with("ok") {
+                out.notes.push(format!("reference_accepts_duplicate:{}", COLS[col]));
+                continue;
+            }
+            if ra != rb {
+                out.diffs.push((format!("dup_rejected:{}", COLS[col]), json!({"statement": s, "bulk_twin": ra, "reference": rb})));
+            }
+        }
+    }
+    out.log_a = a.log.clone();
+    let _ = catch(move || drop(a));
+    let _ = catch(move || drop(b));
+    out
+}
+
+/// structural shrink: smallest case (by a fixed list of simplifications) for which `obs` still differs
+fn shrink_case(scratch: &Scratch, tag: &str, c: &Case, obs: &str, budget: &mut u32) -> Case {
+    let mut cur = c.clone();
+    let mut memo: HashMap<u64, bool> = HashMap::new();
+    let mut fails = |cand: &Case, budget: &mut u32| -> bool {
+        let h = fnv(format!("{:?}", cand).as_bytes());
+        if let Some(r) = memo.get(&h) {
+            return *r;
+        }
+        if *budget == 0 {
+            return false;
+        }
+        *budget -= 1;
+        let r = run_case(scratch, cand, tag);
+        let f = r.dropped.is_none() && r.diffs.iter().any(|(n, _)| n == obs);
+        memo.insert(h, f);
+        f
+    };
+    // batch size (violating batches keep their rows)
+    if cur.viol.is_none() {
+        let mut sizes: Vec<usize> = vec![1, 2, 8, 64, 512];
+        sizes.retain(|s| *s < cur.batch.len());
+        for s in sizes {
+            let mut cand = cur.clone();
+            cand.batch.truncate(s);
+            cand.post_update.retain(|m| *m < 1000 + s as i64);
+            cand.post_delete.retain(|m| *m < 1000 + s as i64);
+            if fails(&cand, budget) {
+                cur = cand;
+                break;
+            }
+        }
+    } else if cur.batch.len() > 2 {
+        // keep only the colliding pair / the offending row and one other
+        let n = cur.batch.len();
+        for drop_i in (0..n).rev() {
+            if cur.batch.len() <= 2 {
+                break;
+            }
+            let mut cand = cur.clone();
+            if drop_i < cand.batch.len() {
+                cand.batch.remove(drop_i);
+                if fails(&cand, budget) {
+                    cur = cand;
+                }
+            }
+        }
+    }
+    if cur.batch.len() > 600 {
+        *budget = (*budget).min(10);
+    }
+    macro_rules! try_set {
+        ($body:expr) => {{
+            let mut cand = cur.clone();
+            let f: &dyn Fn(&mut Case) = &$body;
+            f(&mut cand);
+            if format!("{:?}", cand) != format!("{:?}", cur) && fails(&cand, budget) {
+                cur = cand;
+            }
+        }};
+    }
+    try_set!(|c: &mut Case| {
+        c.post_insert.clear();
+        c.post_update.clear();
+        c.post_delete.clear();
+    });
+    try_set!(|c: &mut Case| c.post_insert.clear());
+    try_set!(|c: &mut Case| c.post_update.clear());
+    try_set!(|c: &mut Case| c.post_delete.clear());
+    try_set!(|c: &mut Case| {
+        c.pre_delete.clear();
+        c.pre_update.clear();
+    });
+    try_set!(|c: &mut Case| c.pre_delete.clear());
+    try_set!(|c: &mut Case| c.pre_update.clear());
+    if !matches!(cur.viol, Some(ViolKind::DupPkExisting) | Some(ViolKind::DupUniqueExisting)) {
+        try_set!(|c: &mut Case| {
+            c.seeds.clear();
+            c.pre_delete.clear();
+            c.pre_update.clear();
+        });
+    }
+    try_set!(|c: &mut Case| {
+        let keep: Vec<i64> = c.pre_delete.iter().chain(c.pre_update.iter()).copied().collect();
+        c.seeds.retain(|r| matches!(&r[D], V::Int(m) if *m == 1 || keep.contains(m)));
+    });
+    try_set!(|c: &mut Case| c.txn = Txn::None);
+    try_set!(|c: &mut Case| c.wal = false);
+    try_set!(|c: &mut Case| c.reopen = false);
+    try_set!(|c: &mut Case| c.collist = false);
+    try_set!(|c: &mut Case| c.tr.secidx = false);
+    try_set!(|c: &mut Case| c.tr.unique = false);
+    try_set!(|c: &mut Case| c.tr.defaults = false);
+    try_set!(|c: &mut Case| c.tr.notnull = false);
+    try_set!(|c: &mut Case| {
+        if !c.null_ids {
+            c.tr.autoinc = false;
+            for r in c.post_insert.iter_mut() {
+                if r[ID].is_null() {
+                    r[ID] = r[D].clone();
+                }
+            }
+        }
+    });
+    try_set!(|c: &mut Case| c.tr.pk = false);
+    try_set!(|c: &mut Case| {
+        // no NULLs in nullable columns
+        c.nulls = false;
+        for (i, r) in c.seeds.iter_mut().chain(c.batch.iter_mut()).chain(c.post_insert.iter_mut()).enumerate() {
+            if r[U].is_null() {
+                r[U] = V::Int(500_000 + i as i64);
+            }
+            if r[S].is_null() {
+                r[S] = V::Int(3);
+            }
+            if r[TXT].is_null() {
+                r[TXT] = V::Text("t".into());
+            }
+            if r[F].is_null() {
+                r[F] = V::Float(1.5);
+            }
+        }
+    });
+    try_set!(|c: &mut Case| {
+        c.wide = false;
+        for r in c.seeds.iter_mut().chain(c.batch.iter_mut()).chain(c.post_insert.iter_mut()) {
+            if let V::Text(_) = r[TXT] {
+                r[TXT] = V::Text("t".into());
+            }
+        }
+    });
+    try_set!(|c: &mut Case| {
+        if !c.null_ids && c.viol.is_none() {
+            c.shuffled = false;
+            let mut ids: Vec<V> = c.batch.iter().map(|r| r[ID].clone()).collect();
+            ids.sort_by(|a, b| a.order_cmp(b));
+            for (r, id) in c.batch.iter_mut().zip(ids) {
+                r[ID] = id;
+            }
+        }
+    });
+    // flags without any data behind them
+    if cur.batch.len() <= 1 {
+        cur.shuffled = false;
+    }
+    let has_null = cur.seeds.iter().chain(cur.batch.iter()).chain(cur.post_insert.iter()).any(|r| [U, S, TXT, F].iter().any(|c| r[*c].is_null()));
+    if !has_null {
+        cur.nulls = false;
+    }
+    cur
+}
+
+fn case_json(c: &Case, log_a: &[String]) -> J {
+    json!({
+        "create": c.tr.create_sql(),
+        "api": c.api.name(),
+        "flags": c.flags(),
+        "batch_len": c.batch.len(),
+        "batch_head": rows_json(&c.batch, 4),
+        "reference_statements_head": c.batch.iter().take(4).map(insert_sql).collect::<Vec<_>>(),
+        "bulk_twin_log": log_a.iter().take(60).collect::<Vec<_>>(),
+    })
+}
+
+struct CaseReport {
+    dropped: Option<String>,
+    notes: Vec<String>,
+    api: &'static str,
+    size_class: &'static str,
+    nontrivial: Option<u64>,
+    sample: Option<J>,
+    viols: Vec<(String, String, J)>,
+    ip: u64,
+    ipi: u64,
+    shrink_runs: u64,
+}
+
+/// case number `i` of the run (a function of (seed, i) only) on worker `w`
+fn one_case(scratch: &Scratch, w: usize, seed: u64, i: u64, n_big: u64, may_shrink: bool, sig_memo: &std::sync::Mutex<HashMap<String, String>>) -> CaseReport {
+    let mut rng = Rng::derive(seed.wrapping_mul(1_000_003).wrapping_add(i), 43);
+    let api = APIS[(i % APIS.len() as u64) as usize];
+    let size = if i < n_big {
+        5000
+    } else {
+        match rng.below(20) {
+            0 => 0,
+            1 | 2 => 1,
+            3..=12 => rng.usize(2, 39),
+            _ => rng.usize(40, 450),
+        }
+    };
+    let c = gen_case(&mut rng, api, size, true);
+    let out = run_case(scratch, &c, &format!("w{}c", w));
+    let mut rep = CaseReport { dropped: out.dropped.clone(), notes: out.notes.clone(), api: c.api.name(), size_class: c.size_class(), nontrivial: None, sample: None, viols: vec![], ip: out.index_probes, ipi: out.index_probes_via_index, shrink_runs: 0 };
+    if out.dropped.is_some() {
+        return rep;
+    }
+    if out.exercised {
+        rep.nontrivial = Some(fnv(format!("{:?}{}{}", c.flags(), c.api.name(), c.size_class()).as_bytes()));
+    }
+    if out.diffs.is_empty() && out.exercised && c.batch.len() > 1 {
+        rep.sample = Some(case_json(&c, &out.log_a));
+    }
+    for (obs, detail) in out.diffs.iter().take(6) {
+        let key = format!("{}|{}|{:?}", c.api.name(), obs, c.flags());
+        let known = sig_memo.lock().unwrap().get(&key).cloned();
+        let (sig, min_json) = if let Some(s) = known {
+            (s, J::Null)
+        } else {
+            let mut budget: u32 = if may_shrink { 60 } else { 0 };
+            let m = shrink_case(scratch, &format!("w{}s", w), &c, obs, &mut budget);
+            rep.shrink_runs += (60 - budget.min(60)) as u64;
+            let r = run_case(scratch, &m, &format!("w{}m", w));
+            let md = r.diffs.iter().find(|(n, _)| n == obs).map(|(_, d)| d.clone());
+            let sig = format!("C43/{}/{}/{}", c.api.name(), obs, m.flags().join("+"));
+            sig_memo.lock().unwrap().insert(key, sig.clone());
+            (sig, json!({"case": case_json(&m, &r.log_a), "detail": md}))
+        };
+        rep.viols.push((obs.split(':').next().unwrap_or(obs).to_string(), sig, json!({"minimal": min_json, "original_flags": c.flags(), "original_detail": detail, "original_case": case_json(&c, &out.log_a)})));
+    }
+    rep
+}
+
+pub fn run(a: &Args) -> i32 {
+    let mut ctx = Ctx::new(
+        "C43",
+        &a.tier,
+        a.seed,
+        "exploration",
+        "twin databases per case: table t(id INT [PRIMARY KEY] [AUTO_INCREMENT], u INT [UNIQUE], s INT [+ secondary index], d INT [DEFAULT], n INT [NOT NULL], txt TEXT (short or 60-260 bytes), f DOUBLE) with a random trait subset; optional rows before (+DELETE/UPDATE of some), WAL on/off, optional BEGIN..COMMIT/ROLLBACK around the load, then the batch (sizes 0, 1, 2..39, 40..450 = around leaf capacity, 5000; NULLs in nullable columns; ordered or shuffled keys; explicit or NULL ids on AUTO_INCREMENT tables) through insert_batch / insert_batch_into_schema / insert_cached (prepared statement executed per row, or the cached plan called directly) / bulk_insert on twin A and one INSERT per row on twin B, then the same INSERT/UPDATE/DELETE on both, optional reopen. Judged: call result / per-row outcomes, full-table bag (twin equality), next AUTO_INCREMENT value, results of the DML after the load, a duplicate of a bulk-loaded key must be rejected on both; and, where the reference twin is self-consistent, twin A's COUNT(*), index point lookups for present/absent keys (EXPLAIN confirms index use), ORDER BY and range over indexed columns must agree with its own full scan. Separate violating batches (duplicate key inside the batch / of an existing row, NULL into NOT NULL): insert_cached must reject exactly the rows INSERT rejects; insert_batch* must leave the declared constraints intact; bulk_insert (documented caller precondition) is only recorded. Failing cases are shrunk structurally; signature = api/observation/remaining traits. distinct_nontrivial = distinct (api, traits, size class, context) cases in which the API call loaded at least one row",
+    );
+    if cfg!(miri) {
+        ctx.inconclusive("Database requires mmap'd files; not runnable under Miri");
+        return ctx.finish();
+    }
+    let quick = ctx.quick();
+    let scratch = Scratch::new("c43");
+    let max_cases: u64 = if quick { 500 } else { 9000 };
+    let explore_s = if quick { 32.0 } else { 400.0 };
+    let hard_s = if quick { 46.0 } else { 530.0 };
+    let n_big: u64 = if quick { 5 } else { 20 };
+    let threads = 8usize;
+    let mut dropped: BTreeMap<String, u64> = BTreeMap::new();
+    let mut notes: BTreeMap<String, u64> = BTreeMap::new();
+    let mut by_api: BTreeMap<String, u64> = BTreeMap::new();
+    let mut by_size: BTreeMap<String, u64> = BTreeMap::new();
+    let sig_memo: std::sync::Mutex<HashMap<String, String>> = std::sync::Mutex::new(HashMap::new());
+    let (mut ip, mut ipi) = (0u64, 0u64);
+    let mut shrink_runs = 0u64;
+    let mut case_no = 0usize;
+    let next = std::sync::atomic::AtomicU64::new(0);
+    let t0 = std::time::Instant::now();
+    let (tx, rx) = std::sync::mpsc::channel::<Result<CaseReport, String>>();
+    let seed = a.seed;
+    std::thread::scope(|s| {
+        for w in 0..threads {
+            let tx = tx.clone();
+            let (next, scratch, sig_memo) = (&next, &scratch, &sig_memo);
+            s.spawn(move || loop {
+                let i = next.fetch_add(1, std::sync::atomic::Ordering::SeqCst);
+                if i >= max_cases || t0.elapsed().as_secs_f64() > explore_s {
+                    break;
+                }
+                let r = catch(|| one_case(scratch, w, seed, i, n_big, t0.elapsed().as_secs_f64() < hard_s, sig_memo)).map_err(|p| format!("harness panic: {}", p));
+                if tx.send(r).is_err() {
+                    break;
+                }
+            });
+        }
+        drop(tx);
+        for r in rx {
+            let rep = match r {
+                Ok(r) => r,
+                Err(e) => {
+                    ctx.inconclusive(&format!("case could not run: {}", e));
+                    continue;
+                }
+            };
+            case_no += 1;
+            ctx.eval();
+            ip += rep.ip;
+            ipi += rep.ipi;
+            shrink_runs += rep.shrink_runs;
+            for n in &rep.notes {
+                *notes.entry(n.clone()).or_insert(0) += 1;
+            }
+            if let Some(d) = &rep.dropped {
+                *dropped.entry(d.clone()).or_insert(0) += 1;
+                continue;
+            }
+            *by_api.entry(rep.api.into()).or_insert(0) += 1;
+            *by_size.entry(rep.size_class.into()).or_insert(0) += 1;
+            if let Some(h) = rep.nontrivial {
+                ctx.nontrivial(h);
+            }
+            if let Some(sm) = rep.sample {
+                if ctx.samples.len() < 5 {
+                    ctx.sample(sm);
+                }
+            }
+            for (assertion, sig, detail) in rep.viols {
+                ctx.violation(&assertion, &sig, detail);
+            }
+        }
+    });
+    ctx.count("cases", case_no as u64);
+    ctx.count("shrink_runs", shrink_runs);
+    ctx.count("index_lookup_columns_probed", ip);
+    ctx.count("index_lookup_columns_planned_as_index_scan", ipi);
+    ctx.extra.insert("cases_dropped_unjudged".into(), json!(dropped));
+    ctx.extra.insert("judged_cases_by_api".into(), json!(by_api));
+    ctx.extra.insert("judged_cases_by_batch_size_class".into(), json!(by_size));
+    ctx.extra.insert("notes".into(), json!(notes));
+    ctx.assumptions.push("bulk APIs receive full-width rows whose OwnedValue types match the column types exactly; NULL is never given for the DEFAULT column; bulk_insert is not wrapped in BEGIN..ROLLBACK (fast_load.rs: auto-commit only) and its violating batches are only recorded (fast_load.rs: the caller MUST ensure uniqueness/NOT NULL); for insert_batch* nothing is documented about constraints, so a violating batch only has to leave the declared constraints intact; insert_cached is reached the documented way (a prepared INSERT executed more than once) and must behave like the INSERT it was prepared from (tests/prepared_statement_constraints.rs); index lookups / ORDER BY / COUNT of the bulk twin are judged against its own full scan and only where the reference twin passes the same self-check; a case whose reference twin misbehaves (INSERT fails on a clean batch, rows missing) is dropped and counted".into());
+    ctx.finish()
 }
